@@ -76,6 +76,7 @@ impl SimpleValidator {
     // policy values named in contracts shared with the units that only see `Arc<dyn Validator>`
     pub open spec fn vp_max_routing_fee_msat(&self) -> u64 { self.policy.max_routing_fee_msat }
     pub open spec fn vp_max_feerate_percentage(&self) -> u8 { self.policy.max_feerate_percentage }
+    pub open spec fn vp_max_channel_size_sat(&self) -> u64 { self.policy.max_channel_size_sat }
 
 //@fn vls-core/src/policy/simple_validator.rs :: impl SimpleValidator :: validate_expiry props=C05
     requires current_height <= 0x7fff_ffff,
@@ -142,7 +143,7 @@ impl SimpleValidator {
 impl SimpleValidator {
 
 //@fn vls-core/src/policy/simple_validator.rs :: impl Validator for SimpleValidator :: validate_channel_value props=C05
-    ensures r.is_ok() && vx_strict(T_policy_funding_max) ==> setup.channel_value_sat <= self.policy.max_channel_size_sat,   //[C05.channel-value.max]
+//@include frag/c/sv_validate_channel_value.rs
 //@end
 
 //@fn vls-core/src/policy/simple_validator.rs :: impl Validator for SimpleValidator :: validate_counterparty_commitment_tx props=C03,C05
